@@ -12,7 +12,8 @@
 (* back with the real parsers (IniConfigParser / TomlConfigParser behind   *)
 (* ValidatorParser, a slice end to end through Options.from_args) and      *)
 (* hands the table to TLC:                                                 *)
-(*   rows : <<[s, fmt, q, w, back, err, tv]>>   s, w, back: sequences of   *)
+(*   rows : <<[s, fmt, q, w, back, u, err, tv]>>  s, w, back, u (what       *)
+(*          unquote_str(w) returns; = s when not applicable): sequences of *)
 (*          one-character strings (the newline is the token "NL"); fmt the *)
 (*          file format, q the quoting style, tv: the whole file is also   *)
 (*          valid TOML (observed by the harness)                           *)
@@ -29,7 +30,8 @@ DQ == "\""
 BS == "\\"
 QuoteAlpha == {"a", " ", SQ, DQ, BS, "#", "=", "[", "]", NL}
 \* fmt: toml = pyproject.toml [tool.pydoctor] ; cfg = setup.cfg [tool:pydoctor] ; ini = pydoctor.ini [pydoctor]
-Styles == {[fmt |-> f, q |-> q] : f \in {"cfg", "ini"}, q \in {"single", "double", "plain"}}
+\* q: single/double = Python literal with escapes ; tsingle/tdouble = triple-quoted, content verbatim ; plain
+Styles == {[fmt |-> f, q |-> q] : f \in {"cfg", "ini"}, q \in {"single", "double", "tsingle", "tdouble", "plain"}}
             \cup {[fmt |-> "toml", q |-> q] : q \in {"basic", "literal"}}
 SeqsUpTo(S, k) == UNION {[1..m -> S] : m \in 0..k}
 
@@ -43,8 +45,13 @@ Esc(t, q) == IF t = <<>> THEN <<>>
 
 Has(t, c) == \E i \in 1..Len(t) : t[i] = c
 \* which strings a style can carry
+TripleOK(t, c) == /\ ~Has(t, BS) /\ ~Has(t, NL)                          \* verbatim: nothing to escape, one line
+                   /\ (t = <<>> \/ t[Len(t)] # c)                          \* would merge with the closing quotes
+                   /\ ~\E i \in 1..(Len(t) - 2) : t[i] = c /\ t[i + 1] = c /\ t[i + 2] = c
 Applicable(t, style) ==
-  CASE style.q = "literal" -> ~Has(t, SQ) /\ ~Has(t, NL)                   \* no escapes exist in '...'
+  CASE style.q = "tsingle" -> TripleOK(t, SQ)
+    [] style.q = "tdouble" -> TripleOK(t, DQ)
+    [] style.q = "literal" -> ~Has(t, SQ) /\ ~Has(t, NL)                   \* no escapes exist in '...'
     [] style.q = "plain"   -> /\ Len(t) >= 1 /\ ~Has(t, NL)
                                  /\ t[1] # " " /\ t[Len(t)] # " "           \* configparser strips values
                                  /\ ~(t[1] = "[" /\ t[Len(t)] = "]")        \* would be read as a list
@@ -52,7 +59,9 @@ Applicable(t, style) ==
     [] OTHER -> TRUE
 
 Encode(t, style) ==
-  CASE style.q = "single"  -> <<SQ>> \o Esc(t, SQ) \o <<SQ>>                \* Python literal '...'
+  CASE style.q = "tsingle" -> <<SQ, SQ, SQ>> \o t \o <<SQ, SQ, SQ>>          \* Python literal '''...''', verbatim
+    [] style.q = "tdouble" -> <<DQ, DQ, DQ>> \o t \o <<DQ, DQ, DQ>>          \* Python literal """...""", verbatim
+    [] style.q = "single"  -> <<SQ>> \o Esc(t, SQ) \o <<SQ>>                \* Python literal '...'
     [] style.q = "double"  -> <<DQ>> \o Esc(t, DQ) \o <<DQ>>                \* Python literal "..."
     [] style.q = "basic"   -> <<DQ>> \o Esc(t, DQ) \o <<DQ>>                \* TOML basic string
     [] style.q = "literal" -> <<SQ>> \o t \o <<SQ>>                         \* TOML literal string
@@ -67,6 +76,7 @@ Unesc(w) == IF w = <<>> THEN <<>>
 Decode(w, style) ==
   CASE style.q \in {"single", "double", "basic"} -> Unesc(SubSeq(w, 2, Len(w) - 1))
     [] style.q = "literal" -> SubSeq(w, 2, Len(w) - 1)
+    [] style.q \in {"tsingle", "tdouble"} -> SubSeq(w, 4, Len(w) - 3)
     [] style.q = "plain" -> w
 
 File == JsonDeserialize(IOEnv.TABLE_FILE)
@@ -92,13 +102,17 @@ KF_TomlLeadingQuote(r) == /\ r.tv /\ r.q \in {"basic", "double"} /\ r.err = ""
                           /\ \/ r.s = <<DQ>> /\ r.back = <<>>
                              \/ Len(r.s) >= 2 /\ r.s[1] = DQ /\ r.s[2] = DQ /\ r.back = SubSeq(r.s, 3, Len(r.s) - 2)
 
+\* empty-triple-quoted: the empty text written '''''' or """""" is not recognised as quoted (is_quoted's triple
+\* pattern needs at least one character of content): unquote_str returns the six quote characters.
+KF_EmptyTripleQuoted(r) == r.q \in {"tsingle", "tdouble"} /\ r.s = <<>> /\ r.err = "" /\ r.u = r.w
+
 Report(i) ==
   LET r == Rows[i]
       st == [fmt |-> r.fmt, q |-> r.q] IN
-    [i |-> i, s |-> r.s, fmt |-> r.fmt, q |-> r.q, w |-> r.w, back |-> r.back, err |-> r.err, tv |-> r.tv,
+    [i |-> i, s |-> r.s, fmt |-> r.fmt, q |-> r.q, w |-> r.w, back |-> r.back, u |-> r.u, err |-> r.err, tv |-> r.tv,
      written_ok |-> Applicable(r.s, st) /\ r.w = Encode(r.s, st),
-     identity   |-> r.err = "" /\ r.back = r.s,
-     kf         |-> KF_IniReadAsToml(r) \/ KF_TomlLeadingQuote(r),
+     identity   |-> r.err = "" /\ r.back = r.s /\ r.u = r.s,              \* u: _configparser.unquote_str(w) itself
+     kf         |-> KF_IniReadAsToml(r) \/ KF_TomlLeadingQuote(r) \/ KF_EmptyTripleQuoted(r),
      lossless   |-> Decode(Encode(r.s, st), st) = r.s]
 
 Emit == row > 0 =>
